@@ -103,15 +103,19 @@ theorem intToDec_shape (i : Int) :
       intro e; subst e; exact absurd hall.1 (by decide)
 
 theorem consumeR1C1Part_abs (cc : CharClass) (i : Int) (tail : List Char)
-    (hlo : -2147483648 ≤ i) (hhi : i ≤ 2147483647) (ht : stops isDigit tail = true) :
+    (hlo : 0 ≤ i) (hhi : i ≤ 2147483647) (ht : stops isDigit tail = true) :
     consumeR1C1Part cc (intToDec i ++ tail) = some (i, true, tail) := by
-  obtain ⟨d, ds, hd, hall, hne⟩ := intToDec_shape i
-  have hp := parseI32_intToDec i hlo hhi
-  rw [hd] at hp ⊢
+  have hp := parseI32_intToDec i (by omega) hhi
+  rw [intToDec_nonneg i hlo] at hp ⊢
+  have hall := natToDec_all_digit i.toNat
+  obtain ⟨d, ds, hd⟩ := List.exists_cons_of_ne_nil (natToDec_ne_nil i.toNat)
+  rw [hd] at hp hall ⊢
+  simp only [List.all_cons, Bool.and_eq_true] at hall
+  have hne : d ≠ '[' := by intro e; subst e; exact absurd hall.1 (by decide)
   simp only [List.cons_append]
   unfold consumeR1C1Part
-  simp only [hne, if_false]
-  rw [takeWhile_app isDigit ds tail hall ht, dropWhile_app isDigit ds tail hall ht, hp]
+  simp only [hne, if_false, hall.1, Bool.not_true, Bool.false_eq_true]
+  rw [takeWhile_app isDigit ds tail hall.2 ht, dropWhile_app isDigit ds tail hall.2 ht, hp]
 
 theorem consumeR1C1Part_rel (cc : CharClass) (hcc : CharClassOK cc) (i : Int) (tail : List Char)
     (hlo : -2147483648 ≤ i) (hhi : i ≤ 2147483647) :
@@ -136,12 +140,12 @@ theorem printR1C1_eq (r : PRef) : printR1C1 [] r = rcPart 'R' r.absRow r.row ++ 
 def I32 (i : Int) : Prop := -2147483648 ≤ i ∧ i ≤ 2147483647
 
 theorem consumeR1C1Part_rcPart (cc : CharClass) (hcc : CharClassOK cc) (letter : Char) (abs : Bool) (v : Int)
-    (tail : List Char) (hv : I32 v) (ht : stops isDigit tail = true) :
+    (tail : List Char) (hv : I32 v) (hnn : abs = true → 0 ≤ v) (ht : stops isDigit tail = true) :
     ∃ x, rcPart letter abs v ++ tail = letter :: x ∧ consumeR1C1Part cc x = some (v, abs, tail) := by
   cases abs with
   | true =>
     refine ⟨intToDec v ++ tail, by simp [rcPart], ?_⟩
-    exact consumeR1C1Part_abs cc v tail hv.1 hv.2 ht
+    exact consumeR1C1Part_abs cc v tail (hnn rfl) hv.2 ht
   | false =>
     refine ⟨'[' :: (intToDec v ++ ']' :: tail), by simp [rcPart], ?_⟩
     exact consumeR1C1Part_rel cc hcc v tail hv.1 hv.2
@@ -149,13 +153,14 @@ theorem consumeR1C1Part_rcPart (cc : CharClass) (hcc : CharClassOK cc) (letter :
 /-- consume_reference_r1c1 reads a printed R1C1 reference back -/
 theorem consumeReferenceR1C1_print (cc : CharClass) (hcc : CharClassOK cc) (r : PRef) (rest : List Char)
     (hr : I32 r.row) (hc : I32 r.column)
+    (hrn : r.absRow = true → 0 ≤ r.row) (hcn : r.absCol = true → 0 ≤ r.column)
     (hd : stops isDigit rest = true) (ha : stops cc.alnum rest = true) :
     consumeReferenceR1C1 cc (printR1C1 [] r ++ rest) = some (r, rest) := by
   rw [printR1C1_eq, List.append_assoc]
-  obtain ⟨y, hy, hcy⟩ := consumeR1C1Part_rcPart cc hcc 'C' r.absCol r.column rest hc hd
+  obtain ⟨y, hy, hcy⟩ := consumeR1C1Part_rcPart cc hcc 'C' r.absCol r.column rest hc hcn hd
   have hstopC : stops isDigit (rcPart 'C' r.absCol r.column ++ rest) = true := by
     rw [hy]; simp [stops]; decide
-  obtain ⟨x, hx, hcx⟩ := consumeR1C1Part_rcPart cc hcc 'R' r.absRow r.row _ hr hstopC
+  obtain ⟨x, hx, hcx⟩ := consumeR1C1Part_rcPart cc hcc 'R' r.absRow r.row _ hr hrn hstopC
   rw [hx]
   unfold consumeReferenceR1C1
   simp only [ne_eq, not_true_eq_false, if_false]
